@@ -36,6 +36,27 @@ T["C05"] = dict(
     technique="TLA+ specification + TLC exhaustive grid check; table replay",
     ref="6. C05")
 
+T["C01"] = dict(
+    text="spec/Engine.tla is an interpreter of an engine description (variables, terms, operators, defuzzifiers, rule blocks, rules as antecedent trees and conclusion lists) whose operators mirror Engine.process: clear fuzzy outputs, activate enabled blocks in order with the loop of each of the 7 activation methods, one contribution per enabled conclusion, aggregation and defuzzification (spec/Defuzzifiers.tla), value cascade. spec/Gen_Engine.tla runs it with TLC on a catalogue of ~50 engines (one per wiring aspect; thorough: +200 seeded random engines) over the product of breakpoints/midpoints/bounds/outside/+-inf/NaN of the inputs, checks design invariants in every state and emits the full observable projection; the same description is built with constructors into a real engine and every row compared: outputs, previous values, every fuzzy output (term, degree, implication, order), every rule degree and triggered flag.",
+    note="Exact rational arithmetic in TLC (32-bit: product-family operators run on a coarser grid); engines bounded (<=3 inputs, <=3 outputs, <=2 blocks); 1e-9 tolerance; rows whose expectation needs a non-square root are skipped and counted; under tie-prone defuzzifiers a mismatching value is accepted only through the C09 reduction link.",
+    technique="TLA+ interpreter specification evaluated by TLC on engine descriptions; spec->code replay of every row with full state comparison",
+    ref="6. C01")
+T["C07"] = dict(
+    text="TLC checks spec/MC_Consequent (Conclude/Trigger of Engine.tla) on all consequents of 1-3 conclusions over 3 output variables with hedge chains, 4 enabled patterns, degrees incl. NaN/+-inf: one contribution per enabled conclusion, independence from the other conclusions, stored degrees, order independence; the defect-shaped hedge-leaking variant is the canary and must fail. Each consequent is printed, loaded with Rule.create and triggered on a real engine with scalar degrees, one batch, and through RuleBlock.activate; fuzzy outputs compared.",
+    note="6,440 consequents x 7 degrees; irrational expectations skipped (counted).",
+    technique="TLA+ specification + TLC exhaustive check with canary; spec->code replay",
+    ref="6. C07")
+T["C10"] = dict(
+    text="TLC checks spec/MC_Weighted (GroupedTerms, InferType, Weighted of Defuzzifiers.tla) on every activation list of length <= 2 (thorough 3) over 5 terms x 4 degrees x 10 aggregation settings x 3 types x 2 defuzzifiers plus seeded lists of 3-6 activations: zero-degree invariance, NaN characterisation, average of constants within bounds, inference table incl. refusals, grouping shape. Every case is replayed on real Aggregated/Activated objects (fresh and long-lived refilled), defuzzify / grouped_terms / activation_degree, scalar and stacked batches; tiny and random double degrees through an exact mirror cross-checked against TLC.",
+    note="Linear/Function terms only at engine level (C01). 1e-9 tolerance (1e-7 where the S-shape inverse is singular).",
+    technique="TLA+ specification + TLC exhaustive check; spec->code replay",
+    ref="6. C10")
+T["C11"] = dict(
+    text="TLC checks spec/MC_Tsukamoto: for the 6 monotonic kinds, both directions, 3 heights, two palettes, 13 fractions of the height, Mu(Tsukamoto(y)) = y exactly wherever the inverse is rational and z strictly monotone in the term's direction. Replay on the real terms: tsukamoto(y) finite, equal to the documented inverse evaluated at the doubles used, membership(tsukamoto(y)) = y, ordering, arrays elementwise, y next to 0, h/2 (both neighbours) and h; every non-monotonic kind refuses.",
+    note="Relation compared to 1e-9 (Arc on squares); the documented inverse is not compared where it is ill-conditioned (within 1e-6 h of 0 or h for sqrt/log kinds).",
+    technique="TLA+ specification + TLC exhaustive check; spec->code replay of the inverse relation",
+    ref="6. C11")
+
 PLANNED = {}
 
 def main():
